@@ -100,6 +100,16 @@ def plan(tier, seed):
                    n0["sched"]),
           "sub": sub, "tf": tf, "part": n0["mode"],
           "profile": {"x64": not tf}, "weight": npaths * g["T"]})
+      if n0["mode"] == "tf_sketchy" and n0["start"] == 0:
+        # EKFAC variant: the update routine is also called on off-schedule
+        # steps (to refresh the EKFAC scalings); the sketch must still move
+        # only on multiples of the update frequency
+        tasks.append({
+            "name": "g%d/tf_sketchy_ekfac/S%d/P%d/start%d" %
+                    (gi, n0["S"], n0["P"], n0["start"]),
+            "sub": sub, "tf": True, "extra": {"ekfac_svd": True, "rank": 1},
+            "part": "tf_sketchy_ekfac", "profile": {"x64": False},
+            "weight": npaths * g["T"]})
   return {
       "tasks": tasks,
       "model": model,
@@ -129,7 +139,7 @@ def run_task(task):
   sig = "C04|" + task["name"]
   try:
     if task["tf"]:
-      rp = replay.TFReplayer(n0, SHAPES_TF, {})
+      rp = replay.TFReplayer(n0, SHAPES_TF, task.get("extra", {}))
     else:
       rp = replay.DSReplayer(n0, SHAPES_DS, {"block_size": 4}, SCHED_SPECS,
                              ["ok", "zero"])
